@@ -94,15 +94,15 @@ META = {
                 note="Trusted: the fake datagram socket (sendto answers only). Scheduling between different destinations is not prescribed by the oracle."),
     "C22": dict(cat="fault_enumeration", eng="E3 mutation enumeration", ref="3 (memo group)",
                 tech="exhaustive enumeration of all short datagrams, alphabet strings, every single-byte replacement and every truncation of valid signed/unsigned grams, and crafted gram sets with numbers at and beyond the count, against real Memoer/AuthMemoer receive servicing",
-                text="Receivers with authic False and True: all byte strings <= 2 bytes, all strings of length 3-4 over a 12-byte alphabet, all 255 replacements of every byte and every truncation of every gram of valid memos (4 zeroth codes x base64/base2 headers, 2 and 3 grams), crafted self-signed sets with count 0..3 and gram numbers up to 2^24-1, a mutated copy of every gram position delivered with all intact grams in all (n+1)! orders, and every delivery sequence up to length 5/6 over the four grams of two memos that two signers send under one memo id, datagram sources as strings or (host, port) duples, transferable signer ids checked against a receiver keep with the right / a rotated / a missing / a foreign key: servicing must not raise; an authic receiver delivers only memos all of whose grams verify for the claimed signer and equal the original.",
+                text="Receivers with authic False and True: all byte strings <= 2 bytes, all strings of length 3-4 over a 12-byte alphabet, all 255 replacements of every byte and every truncation of every gram of valid memos (4 zeroth codes x base64/base2 headers, 2 and 3 grams), crafted self-signed sets with count 0..3 and gram numbers up to 2^24-1, a mutated copy of every gram position delivered with all intact grams in all (n+1)! orders, and every delivery sequence up to length 5/6 over the four grams of two memos that two signers send under one memo id, datagram sources as strings or (host, port) duples, transferable signer ids checked against a receiver keep with the right / a rotated / a missing / a foreign key: servicing must not raise; complete gram sets whose bytes are not UTF-8 are dropped; an authic receiver delivers only memos all of whose grams verify for the claimed signer and equal the original.",
                 note="A reference gram builder written from the wire format must reproduce rend() byte for byte (asserted every run). Fixed ed25519 seeds; counter-based memo ids."),
     "C23": dict(cat="model_checking", eng="E2 BFS over real LMDB", ref="3 (store group)",
                 tech="explicit-state BFS over push/pull/extend/update/remove/clear/reopen/resync histories of the real Durq and Dusq on a real LMDB environment with a list / ordered-set model in lock step",
-                text="All histories to depth 5 (quick) / 7 (thorough) over values {A,B} in three dataclass flavours; states = (memory content, durable (ordinal, value) list, stale flag); after every operation the return value, list(q), len, count, the durable copy read straight through lmdb, sdb.get, cnt and stale are compared with the model; reopen must restore exactly the model's content. Queues may already hold values (with duplicates) when they first become durable; a Dusq keeps its own copies of the values it was built from. The initial state is judged too.",
+                text="All histories to depth 5 (quick) / 7 (thorough) over values {A,B} in three dataclass flavours; states = (memory content, durable (ordinal, value) list, stale flag); after every operation the return value, list(q), len, count, the durable copy read straight through lmdb, sdb.get, cnt and stale are compared with the model; reopen must restore exactly the model's content. Queues may already hold values (with duplicates) when they first become durable; a Dusq keeps its own copies of the values it was built from. The initial state is judged too. Events also cover a queue that already holds values attached over a non-empty durable copy (the durable copy wins) and value lists refused as a whole (nothing changes anywhere).",
                 note="Crash points are orderly close/reopen between operations; torn LMDB pages are LMDB's guarantee. Sandbox under /dev/shm, removed afterwards."),
     "C24": dict(cat="model_checking", eng="E2 BFS over real LMDB", ref="3 (store group)",
                 tech="explicit-state BFS over put/pin/add/pop/rem histories of the real Suber, IoSuber and IoSetSuber on a real LMDB environment with a dict / dict-of-lists / dict-of-ordered-sets model; every other key re-read after every operation",
-                text="Keys {a, ab, a.b, (a,b), a.0, a.<32 hex zeros>} (prefixes of each other, separator and ordinal-suffix shapes), values {x,y} (and, over fewer keys, {empty string, x}): Suber over all keys to depth 4/6, IoSuber and IoSetSuber over all keys to depth 3/4 and over each of the 15 key pairs to depth 4/6; states deduplicated on the raw LMDB content; result, get, cnt, getFirst, getLast of the operated key equal the model and the same reads of every other key are unchanged.",
+                text="Keys {a, ab, a.b, (a,b), a.0, a.<32 hex zeros>} (prefixes of each other, separator and ordinal-suffix shapes), values {x,y} (a third value z for the ordered sets, so that a removal leaves a hole in the ordinals; pins that repeat a value for the lists; and, over fewer keys, {empty string, x}): Suber over all keys to depth 4/6, IoSuber and IoSetSuber over all keys to depth 3/4 and over each of the 15 key pairs to depth 4/6; states deduplicated on the raw LMDB content; result, get, cnt, getFirst, getLast of the operated key equal the model and the same reads of every other key are unchanged.",
                 note="The ordinal-suffix key collision of the insertion-ordered stores is a recorded KNOWN-FINDING (14 keys); after a violation the model follows the store so one defect is not reported as a cascade."),
     "C25": dict(cat="model_checking", eng="E3/E2 product enumeration of forests x transition histories", ref="3 (C25)",
                 tech="exhaustive enumeration of every ordered box forest up to a size, every first box and every transition history up to 3 cycles (with bounded failing preconditions) on the real Boxer.run generator, action traces compared with a reference computed from the forest alone",
@@ -110,23 +110,23 @@ META = {
                 note="Boxes are built by hand (Box, unders, goacts as plain callables); the builder verbs and Need/Act machinery are not exercised. Reference never reads Box.pile."),
     "C26": dict(cat="exploration", eng="E3 full enumeration", ref="3 (C26)",
                 tech="exhaustive enumeration of small input domains against arithmetic written from the statement",
-                text="Every integer below 2^18/2^22 x lengths 1..6 plus power-of-64 boundaries; every Base64 string up to length 3/4; every byte string up to 2/3 bytes x admissible sextet counts, and every sextet count 3..12 with all 256 values of the last needed byte over 4 fill patterns and 0-2 surplus bytes; after every code its neighbours sharing leading octets are converted in the same process.",
+                text="Every integer below 2^18/2^22 x lengths 1..6 plus power-of-64 boundaries; every Base64 string up to length 3/4; every byte string up to 2/3 bytes x admissible sextet counts, and every sextet count 3..12 with all 256 values of the last needed byte over 4 fill patterns and 0-2 surplus bytes; after every code its neighbours sharing leading octets are converted in the same process; asked for more sextets than the bytes hold, both conversions must refuse.",
                 note="l=0 excluded (documented empty soft part)."),
     "C27": dict(cat="model_checking", eng="E2 BFS", ref="3 (C27)",
                 tech="explicit-state BFS of the full reachable state graph of the real Namer with a dict-pair model in lock step",
-                text="The reachable graph over names {a,b,ab,'',None} x addrs {x,y,xy,'',None} (substrings of one another) and all 5 operations is closed (34 states); inverse/injective invariant in every state; rejected operations must not mutate; every pair of constructor entries (conflicting or not) must yield the registry the model yields or be rejected whole.",
+                text="The reachable graph over names {a,b,ab,'',None} x addrs {x,y,xy,'',None} (substrings of one another) and all 5 operations is closed (34 states); inverse/injective invariant in every state; rejected operations (also a TypeError for an address that cannot be a dict key) must not mutate; every pair of constructor entries (conflicting or not) must yield the registry the model yields or be rejected whole.",
                 note="Domains of 3 names / 3 addresses; also from constructor-seeded states."),
     "C28": dict(cat="exploration", eng="E3 term enumeration", ref="3 (C28)",
                 tech="exhaustive enumeration of field values (terms of bounded size) x shapes x formats, round-trip equality",
-                text="8 dataclass shapes (flat, frozen, tyme-stamped, nested 1-2 levels) x JSON/CBOR/MGPK x every term of <= 3/4 nodes over 15 atoms; for the nested shapes also every sequence of <= 3/4 objects whose nested field is absent / present / present with None inside, with rejected (malformed) inputs in between, each sequence judged in its own pristine forked interpreter; a nested data object without fields; every serialisation is read twice, the first result edited in place before the second read.",
+                text="13 dataclass shapes (flat, frozen, tyme-stamped, nested 1-2 levels, without fields, inheriting a nested field, underscore field names, the documented _dictify/_datify hook pair) x JSON/CBOR/MGPK x every term of <= 3/4 nodes over 15 atoms; for the nested shapes also every sequence of <= 3/4 objects whose nested field is absent / present / present with None inside, with rejected (malformed) inputs in between, each sequence judged in its own pristine forked interpreter; a nested data object without fields; every serialisation is read twice, the first result edited in place before the second read.",
                 note="Common representable domain only (no tuples/bytes/NaN/non-str keys)."),
     "C29": dict(cat="exploration", eng="E3 product enumeration in a sandbox", ref="3 (C29)",
                 tech="exhaustive product enumeration of Filer flag combinations x relative names/bases (with dotted segments) x short open/reopen/close histories on the real Filer in a sandbox directory tree, recursive snapshot diff around every step",
-                text="temp x clean x filed x extensioned x reuse x clear (2^6) x 9 names x 6 bases (incl. '..') x history shapes {init-close, init-reopen-close, direct remake() with relative / absolute base / absolute name, reopen with the temp flag flipped, openFiler context manager with and without a flip inside, FilerDoer enter/exit, also with the filer closed by somebody else in between} (thorough: each followed by a second reopen/close round); a foreign sibling file is planted next to every path the Filer opens; Filer's class-level directories are redirected into a sandbox under /dev/shm with sentinel files in every ancestor and sibling directory: everything created or deleted must lie inside the head directory (the instance's mkdtemp directory when temp); every clearing step (close(clear=True), reopen(clear=True), openFiler exit, FilerDoer.exit) deletes only at or below the path the instance had, leaves nothing there, and leaves no mkdtemp directory of the instance.",
+                text="temp x clean x filed x extensioned x reuse x clear (2^6) x 9 names x 6 bases (incl. '..') x history shapes {init-close, init-reopen-close, direct remake() with relative / absolute base / absolute name, reopen with the temp flag flipped, openFiler context manager with and without a flip inside, FilerDoer enter/exit, also with the filer closed by somebody else in between and on a filer that is already open, the primary head directory unusable so that the alternate head is taken, relative head directories with the working directory changed before the clearing close} (thorough: each followed by a second reopen/close round); a foreign sibling file is planted next to every path the Filer opens; Filer's class-level directories are redirected into a sandbox under /dev/shm with sentinel files in every ancestor and sibling directory: everything created or deleted must lie inside the head directory (the instance's mkdtemp directory when temp); every clearing step (close(clear=True), reopen(clear=True), openFiler exit, FilerDoer.exit) deletes only at or below the path the instance had, leaves nothing there, and leaves no mkdtemp directory of the instance.",
                 note="Runs as root on tmpfs, so the permission-driven fallback to the alternate head is watched but not exercised. Left-over mkdtemp directories of temp Filers are a recorded KNOWN-FINDING (2 keys). Intermediate directories of persistent Filers may stay (shared)."),
     "C30": dict(cat="model_checking", eng="E1-sched + virtual asyncio loop, differential", ref="3 (C30), 2 (virtual loop)",
                 tech="stateless exploration incl. all asyncio ready-queue orders on a hand-stepped event loop; do() vs ado() differential",
-                text="Each program is run with do() and with ado() on a virtual BaseEventLoop with 0..2 spinning competitor tasks; the explorer also picks which ready handle runs next; limit and start tyme are given to the constructor or to do()/ado() (limits of either sign, 'no limit' as 0), also followed by a second run without arguments, doers fresh or run before by another Doist; traces, tymes, done flags must be identical.",
+                text="Each program is run with do() and with ado() on a virtual BaseEventLoop with 0..2 spinning competitor tasks; the explorer also picks which ready handle runs next; limit and start tyme are given to the constructor or to do()/ado() (limits of either sign, 'no limit' as 0), also followed by a second run without arguments, doers fresh or run before by another Doist, a deed left over in the idle scheduler before a run that is given its doers, sys.exit() inside a doer; traces, tymes, done flags must be identical.",
                 note="Trusted: the virtual loop (BaseEventLoop subclass) is asyncio's own Task/Handle machinery with time() and the selector removed."),
 }
 
